@@ -124,7 +124,15 @@ def msgacc_cell(P, A):
     obs = {}
 
     def get(name):
-        o = B.call(lambda: getattr(msg, name))
+        def read():
+            v = getattr(msg, name)
+            # touching the IDs is part of reading the accessor
+            if isinstance(v, (list, tuple)):
+                [e.id for e in v]
+            elif v is not None:
+                v.id
+            return v
+        o = B.call(read)
         if o.raised:
             raise AccessorFailed('%s-raised-%s' % (name, type(o.exc).__name__))
         return o.result
